@@ -51,7 +51,9 @@ func (f *Fed) SubQueryerFactory(log *SubLog, maxBatch int) pebbles.GatewayOption
 	if maxBatch <= 0 {
 		maxBatch = 3000
 	}
-	client := &http.Client{Transport: &Transport{Fed: f}}
+	// downstream calls are serialised: the fake services' mutation counters are plain maps, and a
+	// gateway under test may (wrongly) run mutations concurrently
+	client := &http.Client{Transport: &lockedTransport{inner: &Transport{Fed: f}}}
 	return pebbles.WithQueryerFactory(func(ctx *planner.PlanningContext, url string) queryer.Queryer {
 		return &SubQueryer{MultiOpQueryer: queryer.NewMultiOpQueryer(url, maxBatch).WithHTTPClient(client), log: log, url: url}
 	})
@@ -84,4 +86,15 @@ func (f *Fed) RootEvent(sr SubReq) *requests.Response {
 		resp.Data = d
 	}
 	return resp
+}
+
+type lockedTransport struct {
+	mu    sync.Mutex
+	inner http.RoundTripper
+}
+
+func (t *lockedTransport) RoundTrip(r *http.Request) (*http.Response, error) {
+	t.mu.Lock()
+	defer t.mu.Unlock()
+	return t.inner.RoundTrip(r)
 }
